@@ -1,0 +1,277 @@
+//go:build verif
+
+// Contracts for the packet reader/writer primitives, checked by /verif (govc).
+// This file contains comments only; it is not part of any normal build.
+
+package packet
+
+// ---------------------------------------------------------------- Writer
+
+//@ pure func view(w *Writer) Bytes = w.buf.B
+//@ pred wfailed(w *Writer) = w.opError != nil
+//@ pred winv(w *Writer) = w != nil && w.buf != nil && (!wfailed(w) ==> w.written == len(view(w)))
+
+//@ func NewPacketWriter
+//@   props C20,C03
+//@   ensures result != nil && result.buf != nil && !wfailed(result)
+//@   ensures view(result) == eps && result.written == 0
+//@   ensures fresh(result)
+
+//@ func (p2 *Writer) WriteUint8
+//@   props C20,C03
+//@   requires winv(p2)
+//@   modifies p2.written, p2.buf.B
+//@   ensures winv(p2)
+//@   ensures [C20 sticky] old(wfailed(p2)) ==> wfailed(p2) && view(p2) == old(view(p2))
+//@   ensures [C20 append] !old(wfailed(p2)) ==> !wfailed(p2) && view(p2) == cat(old(view(p2)), u8(p)) && p2.written == old(p2.written) + 1
+
+//@ func (p2 *Writer) WriteUint16
+//@   props C20,C03
+//@   requires winv(p2)
+//@   modifies p2.written, p2.buf.B
+//@   ensures winv(p2)
+//@   ensures [C20 sticky] old(wfailed(p2)) ==> wfailed(p2) && view(p2) == old(view(p2))
+//@   ensures [C20 append] !old(wfailed(p2)) ==> !wfailed(p2) && view(p2) == cat(old(view(p2)), be16(p)) && p2.written == old(p2.written) + 2
+
+//@ func (p2 *Writer) WriteUint32
+//@   props C20,C03
+//@   requires winv(p2)
+//@   modifies p2.written, p2.buf.B
+//@   ensures winv(p2)
+//@   ensures [C20 sticky] old(wfailed(p2)) ==> wfailed(p2) && view(p2) == old(view(p2))
+//@   ensures [C20 append] !old(wfailed(p2)) ==> !wfailed(p2) && view(p2) == cat(old(view(p2)), be32(p)) && p2.written == old(p2.written) + 4
+
+//@ func (p2 *Writer) WriteUint64
+//@   props C20,C03
+//@   requires winv(p2)
+//@   modifies p2.written, p2.buf.B
+//@   ensures winv(p2)
+//@   ensures [C20 sticky] old(wfailed(p2)) ==> wfailed(p2) && view(p2) == old(view(p2))
+//@   ensures [C20 append] !old(wfailed(p2)) ==> !wfailed(p2) && view(p2) == cat(old(view(p2)), be64(p)) && p2.written == old(p2.written) + 8
+
+//@ func (p2 *Writer) WriteBytes
+//@   props C20,C03
+//@   requires winv(p2)
+//@   modifies p2.written, p2.buf.B, p2.opError
+//@   ensures winv(p2)
+//@   ensures [C20 sticky] old(wfailed(p2)) ==> wfailed(p2) && view(p2) == old(view(p2)) && p2.written == old(p2.written)
+//@   ensures [C20 append] !old(wfailed(p2)) ==> !wfailed(p2) && view(p2) == cat(old(view(p2)), content(data)) && p2.written == old(p2.written) + len(data)
+
+//@ func (p2 *Writer) WriteString
+//@   props C20,C03
+//@   requires winv(p2)
+//@   modifies p2.written, p2.buf.B, p2.opError
+//@   ensures winv(p2)
+//@   ensures [C20 sticky] old(wfailed(p2)) ==> wfailed(p2) && view(p2) == old(view(p2)) && p2.written == old(p2.written)
+//@   ensures [C20 append] !old(wfailed(p2)) ==> !wfailed(p2) && view(p2) == cat(old(view(p2)), s) && p2.written == old(p2.written) + len(s)
+
+//@ func (p2 *Writer) WriteCString
+//@   props C20,C03
+//@   requires winv(p2)
+//@   modifies p2.written, p2.buf.B, p2.opError
+//@   ensures winv(p2)
+//@   ensures [C20 sticky] old(wfailed(p2)) ==> wfailed(p2) && view(p2) == old(view(p2)) && p2.written == old(p2.written)
+//@   ensures [C20 append] !old(wfailed(p2)) ==> !wfailed(p2) && view(p2) == cat(old(view(p2)), cstr(s)) && p2.written == old(p2.written) + len(s) + 1
+
+//@ func (p2 *Writer) WriteFixedLenString
+//@   props C20,C03
+//@   requires winv(p2)
+//@   modifies p2.written, p2.buf.B, p2.opError
+//@   ensures winv(p2)
+//@   ensures [C20 sticky] old(wfailed(p2)) ==> wfailed(p2) && view(p2) == old(view(p2)) && p2.written == old(p2.written)
+//@   ensures [C20 append] !old(wfailed(p2)) && len(s) <= n ==> !wfailed(p2) && view(p2) == cat(old(view(p2)), fixed(s, n)) && p2.written == old(p2.written) + n
+//@   ensures [C20,C01 refuse] !old(wfailed(p2)) && len(s) > n ==> wfailed(p2) && view(p2) == old(view(p2))
+
+//@ func (p2 *Writer) Bytes
+//@   props C20,C03
+//@   requires p2 != nil && p2.buf != nil
+//@   ensures [C20 ok] !wfailed(p2) ==> err == nil && result == view(p2)
+//@   ensures [C20 failed] wfailed(p2) ==> err != nil && len(result) == 0
+//@   ensures [C12 fresh] !wfailed(p2) ==> fresh(result)
+
+//@ func (p2 *Writer) BytesWithLength
+//@   props C20,C03
+//@   requires winv(p2) && p2.written >= 0
+//@   ensures [C20 ok] !wfailed(p2) && p2.written + 4 < 4294967296 ==> err == nil && result == cat(be32(p2.written + 4), view(p2)) && len(result) == 4 + p2.written
+//@   ensures [C20 failed] wfailed(p2) ==> err != nil && len(result) == 0
+//@   ensures [C12 fresh] !wfailed(p2) ==> fresh(result)
+
+//@ func (p2 *Writer) Written
+//@   props C20
+//@   requires p2 != nil
+//@   ensures result == p2.written
+
+//@ func (p2 *Writer) Error
+//@   props C20,C03
+//@   requires p2 != nil
+//@   ensures (result != nil) <==> wfailed(p2)
+
+//@ func (p2 *Writer) Len
+//@   props C20,C03
+//@   requires p2 != nil && p2.buf != nil
+//@   ensures wfailed(p2) ==> result == 0
+//@   ensures !wfailed(p2) ==> result == len(view(p2))
+
+//@ func (p2 *Writer) Release
+//@   props C20,C03
+//@   requires p2 != nil && p2.buf != nil
+//@   modifies p2.written, p2.opError, mem(p2.buf.B)
+//@   ensures p2.written == 0 && !wfailed(p2)
+
+// ---------------------------------------------------------------- Reader
+
+//@ pure func rem(r *Reader) Bytes = r.buffer.unread
+//@ pred rfailed(r *Reader) = r.opError != nil
+//@ pred rinv(r *Reader) = r != nil && r.buffer != nil
+//@ pred reof(r *Reader) = isEOF(r.opError)
+
+//@ func NewPacketReader
+//@   props C20,C03
+//@   ensures result != nil && result.buffer != nil && !rfailed(result)
+//@   ensures rem(result) == content(data)
+//@   ensures fresh(result)
+
+//@ func (p *Reader) ReadUint8
+//@   props C20,C03
+//@   requires rinv(p)
+//@   modifies p.buffer.unread, p.opError
+//@   ensures rinv(p)
+//@   ensures [C20 sticky] old(rfailed(p)) ==> rfailed(p) && result == 0 && rem(p) == old(rem(p)) && (reof(p) <==> old(reof(p)))
+//@   ensures [C20 ok] !old(rfailed(p)) && len(old(rem(p))) >= 1 ==> !rfailed(p) && result == at(old(rem(p)), 0) && rem(p) == drop(old(rem(p)), 1)
+//@   ensures [C20 short] !old(rfailed(p)) && len(old(rem(p))) < 1 ==> rfailed(p) && result == 0 && rem(p) == eps && reof(p)
+//@   ensures [C20 obs.fail] !old(rfailed(p)) ==> (rfailed(p) <==> !ok8(old(rem(p))))
+//@   ensures [C20 obs.ok] !old(rfailed(p)) && ok8(old(rem(p))) ==> rem(p) == tl8(old(rem(p))) && result == hd8(old(rem(p)))
+//@   ensures [C20 obs.short] !old(rfailed(p)) && !ok8(old(rem(p))) ==> rem(p) == eps && result == 0
+
+//@ func (p *Reader) ReadUint16
+//@   props C20,C03
+//@   requires rinv(p)
+//@   modifies p.buffer.unread, p.opError
+//@   ensures rinv(p)
+//@   ensures [C20 sticky] old(rfailed(p)) ==> rfailed(p) && result == 0 && rem(p) == old(rem(p)) && (reof(p) <==> old(reof(p)))
+//@   ensures [C20 ok] !old(rfailed(p)) && len(old(rem(p))) >= 2 ==> !rfailed(p) && result == dbe16(take(old(rem(p)), 2)) && rem(p) == drop(old(rem(p)), 2)
+//@   ensures [C20 short] !old(rfailed(p)) && len(old(rem(p))) < 2 ==> rfailed(p) && result == 0 && rem(p) == eps && (reof(p) <==> len(old(rem(p))) == 0)
+//@   ensures [C20 obs.fail] !old(rfailed(p)) ==> (rfailed(p) <==> !ok16(old(rem(p))))
+//@   ensures [C20 obs.ok] !old(rfailed(p)) && ok16(old(rem(p))) ==> rem(p) == tl16(old(rem(p))) && result == hd16(old(rem(p)))
+//@   ensures [C20 obs.short] !old(rfailed(p)) && !ok16(old(rem(p))) ==> rem(p) == eps && result == 0
+
+//@ func (p *Reader) ReadUint32
+//@   props C20,C03
+//@   requires rinv(p)
+//@   modifies p.buffer.unread, p.opError
+//@   ensures rinv(p)
+//@   ensures [C20 sticky] old(rfailed(p)) ==> rfailed(p) && result == 0 && rem(p) == old(rem(p)) && (reof(p) <==> old(reof(p)))
+//@   ensures [C20 ok] !old(rfailed(p)) && len(old(rem(p))) >= 4 ==> !rfailed(p) && result == dbe32(take(old(rem(p)), 4)) && rem(p) == drop(old(rem(p)), 4)
+//@   ensures [C20 short] !old(rfailed(p)) && len(old(rem(p))) < 4 ==> rfailed(p) && result == 0 && rem(p) == eps && (reof(p) <==> len(old(rem(p))) == 0)
+//@   ensures [C20 obs.fail] !old(rfailed(p)) ==> (rfailed(p) <==> !ok32(old(rem(p))))
+//@   ensures [C20 obs.ok] !old(rfailed(p)) && ok32(old(rem(p))) ==> rem(p) == tl32(old(rem(p))) && result == hd32(old(rem(p)))
+//@   ensures [C20 obs.short] !old(rfailed(p)) && !ok32(old(rem(p))) ==> rem(p) == eps && result == 0
+
+//@ func (p *Reader) ReadUint64
+//@   props C20,C03
+//@   requires rinv(p)
+//@   modifies p.buffer.unread, p.opError
+//@   ensures rinv(p)
+//@   ensures [C20 sticky] old(rfailed(p)) ==> rfailed(p) && result == 0 && rem(p) == old(rem(p)) && (reof(p) <==> old(reof(p)))
+//@   ensures [C20 ok] !old(rfailed(p)) && len(old(rem(p))) >= 8 ==> !rfailed(p) && result == dbe64(take(old(rem(p)), 8)) && rem(p) == drop(old(rem(p)), 8)
+//@   ensures [C20 short] !old(rfailed(p)) && len(old(rem(p))) < 8 ==> rfailed(p) && result == 0 && rem(p) == eps && (reof(p) <==> len(old(rem(p))) == 0)
+//@   ensures [C20 obs.fail] !old(rfailed(p)) ==> (rfailed(p) <==> !ok64(old(rem(p))))
+//@   ensures [C20 obs.ok] !old(rfailed(p)) && ok64(old(rem(p))) ==> rem(p) == tl64(old(rem(p))) && result == hd64(old(rem(p)))
+//@   ensures [C20 obs.short] !old(rfailed(p)) && !ok64(old(rem(p))) ==> rem(p) == eps && result == 0
+
+//@ func (p *Reader) ReadBytes
+//@   props C20,C03
+//@   requires rinv(p)
+//@   modifies p.buffer.unread, p.opError, mem(receiver)
+//@   ensures rinv(p)
+//@   ensures [C20 sticky] old(rfailed(p)) ==> rfailed(p) && rem(p) == old(rem(p)) && content(receiver) == old(content(receiver)) && (reof(p) <==> old(reof(p)))
+//@   ensures [C20 empty] !old(rfailed(p)) && len(receiver) == 0 ==> !rfailed(p) && rem(p) == old(rem(p))
+//@   ensures [C20 ok] !old(rfailed(p)) && len(receiver) > 0 && len(old(rem(p))) >= len(receiver) ==> !rfailed(p) && content(receiver) == take(old(rem(p)), len(receiver)) && rem(p) == drop(old(rem(p)), len(receiver))
+//@   ensures [C20 short] !old(rfailed(p)) && len(receiver) > 0 && len(old(rem(p))) < len(receiver) ==> rfailed(p) && rem(p) == eps && (reof(p) <==> len(old(rem(p))) == 0)
+//@   ensures [C20 obs.fail] !old(rfailed(p)) && len(receiver) > 0 ==> (rfailed(p) <==> !okN(old(rem(p)), len(receiver)))
+//@   ensures [C20 obs.ok] !old(rfailed(p)) && len(receiver) > 0 && okN(old(rem(p)), len(receiver)) ==> rem(p) == tlN(old(rem(p)), len(receiver)) && content(receiver) == hdB(old(rem(p)), len(receiver))
+
+//@ func (p *Reader) Bytes
+//@   props C20,C03
+//@   requires rinv(p)
+//@   ensures rfailed(p) ==> len(result) == 0
+//@   ensures !rfailed(p) ==> result == rem(p)
+
+//@ func (p *Reader) ReadCStringN
+//@   props C20,C03
+//@   requires rinv(p)
+//@   modifies p.buffer.unread, p.opError
+//@   option alloc = 2 * max(n, 0)
+//@   ensures rinv(p)
+//@   ensures [C20 sticky] old(rfailed(p)) ==> rfailed(p) && result == eps && rem(p) == old(rem(p)) && (reof(p) <==> old(reof(p)))
+//@   ensures [C20 nonpos] !old(rfailed(p)) && n <= 0 ==> !rfailed(p) && result == eps && rem(p) == old(rem(p))
+//@   ensures [C20 ok] !old(rfailed(p)) && n > 0 && len(old(rem(p))) >= n ==> !rfailed(p) && rem(p) == drop(old(rem(p)), n) && result == trim(take(old(rem(p)), n))
+//@   ensures [C20 short] !old(rfailed(p)) && n > 0 && len(old(rem(p))) < n ==> rfailed(p) && result == eps && rem(p) == eps && (reof(p) <==> len(old(rem(p))) == 0)
+//@   ensures [C20 obs.fail] !old(rfailed(p)) && n > 0 ==> (rfailed(p) <==> !okN(old(rem(p)), n))
+//@   ensures [C20 obs.ok] !old(rfailed(p)) && n > 0 && okN(old(rem(p)), n) ==> rem(p) == tlN(old(rem(p)), n) && result == hdC(old(rem(p)), n)
+//@   ensures [C20 obs.short] !old(rfailed(p)) && n > 0 && !okN(old(rem(p)), n) ==> rem(p) == eps && result == eps
+
+//@ func (p *Reader) ReadCStringNWithoutTrim
+//@   props C20,C03
+//@   requires rinv(p)
+//@   modifies p.buffer.unread, p.opError
+//@   option alloc = 2 * max(n, 0)
+//@   ensures rinv(p)
+//@   ensures [C20 sticky] old(rfailed(p)) ==> rfailed(p) && result == eps && rem(p) == old(rem(p)) && (reof(p) <==> old(reof(p)))
+//@   ensures [C20 nonpos] !old(rfailed(p)) && n <= 0 ==> !rfailed(p) && result == eps && rem(p) == old(rem(p))
+//@   ensures [C20 ok] !old(rfailed(p)) && n > 0 && len(old(rem(p))) >= n ==> !rfailed(p) && rem(p) == drop(old(rem(p)), n) && result == take(old(rem(p)), n)
+//@   ensures [C20 short] !old(rfailed(p)) && n > 0 && len(old(rem(p))) < n ==> rfailed(p) && result == eps && rem(p) == eps && (reof(p) <==> len(old(rem(p))) == 0)
+//@   ensures [C20 obs.fail] !old(rfailed(p)) && n > 0 ==> (rfailed(p) <==> !okN(old(rem(p)), n))
+//@   ensures [C20 obs.ok] !old(rfailed(p)) && n > 0 && okN(old(rem(p)), n) ==> rem(p) == tlN(old(rem(p)), n) && result == hdB(old(rem(p)), n)
+//@   ensures [C20 obs.short] !old(rfailed(p)) && n > 0 && !okN(old(rem(p)), n) ==> rem(p) == eps && result == eps
+
+//@ func (p *Reader) ReadNBytes
+//@   props C20,C03
+//@   requires rinv(p)
+//@   modifies p.buffer.unread, p.opError
+//@   option alloc = max(n, 0)
+//@   ensures rinv(p)
+//@   ensures [C20 sticky] old(rfailed(p)) ==> rfailed(p) && len(result) == 0 && rem(p) == old(rem(p)) && (reof(p) <==> old(reof(p)))
+//@   ensures [C20 nonpos] !old(rfailed(p)) && n <= 0 ==> !rfailed(p) && len(result) == 0 && rem(p) == old(rem(p))
+//@   ensures [C20 ok] !old(rfailed(p)) && n > 0 && len(old(rem(p))) >= n ==> !rfailed(p) && rem(p) == drop(old(rem(p)), n) && result == take(old(rem(p)), n)
+//@   ensures [C20 short] !old(rfailed(p)) && n > 0 && len(old(rem(p))) < n ==> rfailed(p) && len(result) == 0 && rem(p) == eps && (reof(p) <==> len(old(rem(p))) == 0)
+//@   ensures [C20 obs.fail] !old(rfailed(p)) && n > 0 ==> (rfailed(p) <==> !okN(old(rem(p)), n))
+//@   ensures [C20 obs.ok] !old(rfailed(p)) && n > 0 && okN(old(rem(p)), n) ==> rem(p) == tlN(old(rem(p)), n) && result == hdB(old(rem(p)), n)
+//@   ensures [C20 obs.short] !old(rfailed(p)) && n > 0 && !okN(old(rem(p)), n) ==> rem(p) == eps && len(result) == 0
+//@   ensures [C12 fresh] fresh(result)
+
+//@ func (p *Reader) ReadCString
+//@   props C20,C03
+//@   requires rinv(p)
+//@   modifies p.buffer.unread, p.opError
+//@   option alloc = len(rem(p))
+//@   ensures rinv(p)
+//@   ensures [C20 sticky] old(rfailed(p)) ==> rfailed(p) && result == eps && rem(p) == old(rem(p)) && (reof(p) <==> old(reof(p)))
+//@   ensures [C20 ok] !old(rfailed(p)) && idx0(old(rem(p))) >= 0 ==> !rfailed(p) && result == take(old(rem(p)), idx0(old(rem(p)))) && rem(p) == drop(old(rem(p)), idx0(old(rem(p))) + 1)
+//@   ensures [C20 short] !old(rfailed(p)) && idx0(old(rem(p))) < 0 ==> rfailed(p) && result == eps && rem(p) == eps && reof(p)
+//@   ensures [C20 obs.fail] !old(rfailed(p)) ==> (rfailed(p) <==> !okZ(old(rem(p))))
+//@   ensures [C20 obs.ok] !old(rfailed(p)) && okZ(old(rem(p))) ==> rem(p) == tlZ(old(rem(p))) && result == hdZ(old(rem(p)))
+//@   ensures [C20 obs.short] !old(rfailed(p)) && !okZ(old(rem(p))) ==> rem(p) == eps && result == eps
+
+//@ func (p *Reader) Error
+//@   props C20,C03
+//@   requires p != nil
+//@   ensures (result != nil) <==> rfailed(p)
+//@   ensures isEOF(result) <==> reof(p)
+
+//@ func (p *Reader) SetErrNil
+//@   props C20,C03
+//@   requires p != nil
+//@   modifies p.opError
+//@   ensures !rfailed(p)
+
+//@ func (p *Reader) Release
+//@   props C20,C03
+//@   requires rinv(p)
+//@   modifies p.buffer.unread, p.opError
+//@   ensures !rfailed(p) && rem(p) == eps
+
+//@ func (p *Reader) Remaining
+//@   props C20,C03
+//@   requires rinv(p)
+//@   ensures result == len(rem(p))
